@@ -45,6 +45,10 @@ def make_spec(alpha, beta, side, topo, cur, w_init):
     fstar = math.cos(math.radians(alpha)) * math.tan(math.radians(beta))
     if side == 'lock':
         f = min(1.3 * fstar, (fstar + 1) / 2)
+    elif side == 'lock-near':
+        f = 1.02 * fstar
+    elif side == 'free-near':
+        f = 0.98 * fstar
     else:
         f = 0.7 * fstar
     eta = ref.worm_efficiency(math.radians(alpha), math.radians(beta), f, True)
@@ -105,6 +109,9 @@ def shards(tier):
                     cfgs += [dict(cfgs[0], dt=d) for d in DTS[1:]]
                     cfgs += [dict(cfgs[0], w=w) for w in INITW[1:]]
                 out.append({'mode': 'dev', 'cfgs': cfgs})
+    # frictions 2% beside the threshold, every geometry (the criterion itself, at every pressure angle)
+    for a, b in geometries():
+        out.append({'mode': 'dev', 'cfgs': [dict(BASE, alpha=a, beta=b, side=sd, topo=1) for sd in ('lock-near', 'free-near')]})
     return out
 
 
@@ -132,7 +139,7 @@ def check_case(acc, cfg, env_seq, cover, split=None):
         acc.violation(f'C13/run-error/{info["error"][0]}', 'simulation runs', case, {'error': info['error']})
         return
     chain = sim.chain_ref(spec)
-    expect_sl = cfg['side'] == 'lock'
+    expect_sl = cfg['side'].startswith('lock')
     if chain.self_locking != expect_sl or m.pt.self_locking != expect_sl:
         acc.violation('C13/self-locking-flag', 'powertrain self-locking flag = (f > cos(alpha) tan(beta))', case,
                       {'powertrain': m.pt.self_locking, 'reference': chain.self_locking})
@@ -162,7 +169,7 @@ def check_case(acc, cfg, env_seq, cover, split=None):
     for k in range(n):
         acc.state((key0, k, mot['angular speed'][k], mot['angular acceleration'][k], mot['torque'][k],
                    mot['pwm'][k]))
-    acc.outcomes[(cfg['side'], 'stopped-some' if any(mot['angular speed'][k] == 0 for k in range(1, n)) else 'moving')] += 1
+    acc.outcomes[(cfg['side'].split('-')[0], 'stopped-some' if any(mot['angular speed'][k] == 0 for k in range(1, n)) else 'moving')] += 1
     acc.cases += 1
 
 
